@@ -787,9 +787,13 @@ def str_method(interp, s, name, args, kwargs):
         lo, hi, d = (65, 90, 32) if name == "lower" else (97, 122, -32)
         if chars is not None:
             return mk(BStr([z3.simplify(z3.If(z3.And(iv(c) >= lo, iv(c) <= hi), iv(c) + d, iv(c))) for c in chars]))
+        n = interp._pinned_length(s) if isinstance(s, SV) else None
+        if n is not None:
+            return str_method(interp, sym.coerce_to_bstr(ctx, s, n, n), name, args, kwargs)
         f = sym.ufun("str_" + name, z3.StringSort(), z3.StringSort())
         r = f(zstr(s))
         ctx.assume(z3.Length(r) == z3.Length(zstr(s)))
+        ctx.taint(f"str.{name} on an unbounded symbolic string is uninterpreted")  # a counter-model here proves nothing
         interp.used_models.add(f"str.{name}: uninterpreted, length-preserving (ASCII)")
         return sym.sstr(r)
     if name in ("strip", "lstrip", "rstrip"):
